@@ -14,6 +14,8 @@ ANNOTATIONS = ['int', 'str', 'a.B', 'List[int]', 'Dict[str, "Foo"]', "Optional['
                'Callable[[int], str]', "'List[int]'", 'Tuple[()]', 'Tuple[int, ...]', "typing.Literal['lit']", "'Dict[str, Tuple[int, ...]]'",
                'None', "'None'", 'Callable[..., "T"]', "Union['A', 'b.C', None]", 'type[int]', "list['X | None']", 'Annotated[int, "meta"]' if False else 'Final',
                'Optional[None]', '"a.b.C"',
+               # string annotations whose outermost node is an operator over an operand that needs its parentheses
+               '"(A | B) & C"', '"-(A + B)"', '"(A or B) and C"', '"(A | B)[int]"', '"(A, B)[0]"', '"(yield_ := A) | B"',
                'Dict[str, Tuple[Callable[[int, str, bytes], Optional[float]], Mapping[str, Sequence[Union[int, str, None]]]]]',
                "'Mapping[str, Callable[[SomeVeryLongClassName, AnotherVeryLongClassName], Awaitable[Optional[YetAnotherName]]]]'",
                # quoted forward references below operators and in other spellings of Literal
